@@ -73,7 +73,11 @@ type Fault struct {
 // singles out particular values must not thereby lose others.  EOF-like values
 // (io.EOF, io.ErrUnexpectedEOF) are deliberately absent: the unchanged library
 // itself treats them as end-of-input indications in two places.
-var FaultErrors = []error{ErrInjected, fmt.Errorf("transport: %w", ErrInjected), syscall.EIO, io.ErrClosedPipe}
+//
+// An error that merely *wraps* io.EOF is not one of them: the io.Reader
+// contract has end of input signalled by io.EOF itself, compared with ==, so
+// "connection lost: EOF" built with %w is a failure like any other.
+var FaultErrors = []error{ErrInjected, fmt.Errorf("transport: %w", ErrInjected), syscall.EIO, io.ErrClosedPipe, fmt.Errorf("connection lost: %w", io.EOF)}
 
 func (f Fault) err() error {
 	if f.Err != nil {
